@@ -12,7 +12,7 @@ ASSUMPTIONS = [
 ]
 SPLIT = {"nested_par": [("_ok", "not fail"), ("_fail", "fail")], "par2": [("_none", "not fa and not fb"), ("_a", "fa and not fb"), ("_b", "fb and not fa")],
          "map_items": [("_ok", "failing == -1"), ("_fail", "failing >= 0 and n >= 1")]}
-scn.register(globals(), {"C02"}, ["seq_chain", "seq_misc", "two_execs", "start_routes", "par2", "par_pass_task", "map_items", "par3", "par_wait_fail", "nested_par"], SPLIT)
+scn.register(globals(), {"C02"}, ["seq_chain", "seq_misc", "exec_timeout", "two_execs", "start_routes", "par2", "par_pass_task", "map_items", "par3", "par_wait_fail", "nested_par"], SPLIT)
 
 import s2_more as more
 more.register(globals(), {"C02"}, ["par3_mixed", "map_fail_batches", "map_in_par", "par_in_map", "branch_fail_state", "par_longform", "nested_inner_catch", "three_execs"],
